@@ -1,5 +1,5 @@
 """C02 — Tail calls run in bounded space (structural part)."""
-from . import mir
+from . import mir, absint
 from .mir import callee, callee_matches, Prov
 from .ctx import where_of
 
@@ -207,6 +207,12 @@ def run(ctx):
     # unchanged: decided by the `real-body` row of the trampoline table below; shape-bound fallback:
     from . import evaltables
     d_tramp = evaltables.rule_trampoline(ctx, "C02-trampoline", {"rebind", "env"})
+    # either arm of a tail `if`: the test once, then the selected arm handed on (a call comes back pending, anything else is
+    # evaluated once) — "the loop computes the same result as the equivalent bounded iteration" fails if a test with an effect runs twice
+    try:
+        evaltables.rule_conditional(ctx, "C02-tail-returns", evaltables.tables(fb)["w"].ete)
+    except (mir.AnchorMissing, absint.Stuck, absint.Loop) as e:
+        ctx.undecided("C02-tail-returns", "conditional", "the conditional table of the tail evaluator could not be built (%s)" % e)
     def _old_returns():
         d0 = mir.defs_of(asp).get(0, [])
         kinds = sorted({callee(d[2]) if d[0] == "call" else "aggregate/assign" for d in d0})
